@@ -225,3 +225,55 @@ Fixpoint shape (F : nat) (h : heap) (n : nat) : tree :=
 
 (* every node below n (n included) lies in [lo, length h) *)
 Definition within (lo : nat) (h : heap) (n : nat) : Prop := forall F m, In m (dfs F h n) -> lo <= m < length h.
+
+(* ---- normalize, on trees: merge runs of adjacent text children, everywhere ----------------------------- *)
+
+Definition text_leaf (t : tree) : option (list Z) := match t with T (Some (KText s)) _ => Some s | _ => None end.
+
+Fixpoint merge_text (l : list tree) : list tree :=
+  match l with
+  | [] => []
+  | t :: r => match text_leaf t, merge_text r with
+              | Some s, T (Some (KText s')) _ :: r' => T (Some (KText (s ++ s'))) [] :: r'
+              | Some s, r' => T (Some (KText s)) [] :: r'
+              | None, r' => t :: r'
+              end
+  end.
+
+Fixpoint norm_tree (t : tree) : tree := match t with T k kids => T k (merge_text (map norm_tree kids)) end.
+
+(* the text of a tree in document order *)
+Fixpoint tree_text (t : tree) : list Z :=
+  match t with T k kids => match k with Some (KText s) => s | _ => concat (map tree_text kids) end end.
+
+Definition is_text_leaf (t : tree) : bool := match text_leaf t with Some _ => true | None => false end.
+
+Fixpoint adjacent_text (l : list tree) : bool :=
+  match l with
+  | a :: ((b :: _) as r) => (is_text_leaf a && is_text_leaf b) || adjacent_text r
+  | _ => false
+  end.
+
+(* no two adjacent text children anywhere *)
+Fixpoint no_adjacent (t : tree) : bool :=
+  match t with T _ kids => negb (adjacent_text kids) && forallb no_adjacent kids end.
+
+Definition kind_eqb (a b : kind) : bool :=
+  match a, b with
+  | KElem x, KElem y => Z.eqb x y
+  | KText s, KText s' => if list_eq_dec Z.eq_dec s s' then true else false
+  | KFrag, KFrag | KDoc, KDoc => true
+  | _, _ => false
+  end.
+
+Fixpoint tree_eqb (a b : tree) : bool :=
+  match a, b with
+  | T ka la, T kb lb =>
+      match ka, kb with Some x, Some y => kind_eqb x y | None, None => true | _, _ => false end &&
+      (fix go (la lb : list tree) : bool :=
+         match la, lb with [], [] => true | x :: ra, y :: rb => tree_eqb x y && go ra rb | _, _ => false end) la lb
+  end.
+
+(* M5 as a check on one heap pair: the tree below p after normalize is the normalized tree below p before *)
+Definition normalize_conforms (h h' : heap) (p : nat) : bool :=
+  tree_eqb (shape (S (length h)) h' p) (norm_tree (shape (S (length h)) h p)).
